@@ -26,7 +26,16 @@
    [pick inj c n]          inj[n] if that is not None, else inj["<c>_<n>"];
    [comp_has d n]          hasattr(component, n) before injection;
    [subclass]              CPython's isinstance, an input (Section variable):
-                           the theorems hold for every such relation. *)
+                           the theorems hold for every such relation;
+   [env]                   what wpilib.DriverStation reports while the robot
+                           program starts: fms_attached (isFMSAttached()),
+                           ds_enabled (isEnabled());
+   [startup_in subclass e r]  _create_components run in that environment;
+   [targets r]             everything that receives attribute injection: the
+                           components, then the autonomous modes;
+   [request_fails subclass inj c n h]  the annotation h is not a class, or inj
+                           holds nothing under n and "<c>_<n>", or an object
+                           that is not an instance of it. *)
 From Coq Require Import List String Ascii Bool Arith Permutation.
 From RV Require Import Inject.Model Inject.Proofs.
 Import ListNotations.
